@@ -112,7 +112,7 @@ def make_phantoms_post(S, I, variant):
     stratum = Obj(I.get(MOD, "Stratum"), {"use_style": use_style, "max_cards": max_cards})
     audit = Obj(I.get(MOD, "Audit"), {"strata": {"s": stratum}})
     fn = I.get(MOD, "CVR.make_phantoms")
-    r, exc = guard(S, I, lambda: I.call(fn, [], {"audit": audit, "contests": cons, "cvr_list": list(cards), "prefix": "ph-"}))
+    r, exc = guard(S, I, lambda: I.call(fn, [], {"audit": audit, "contests": {"key of " + k_: v_ for k_, v_ in cons.items()}, "cvr_list": list(cards), "prefix": "ph-"}))
     if exc:
         return
     out, nph = r
@@ -618,7 +618,7 @@ def make_phantoms_unbounded(S, I, variant):
         (lambda st: _is_range_for(st) and _try(_indexed_list, st), ListContestSummary(S, cons, needed)),
     ]
     fn = I.get(MOD, "CVR.make_phantoms")
-    r, exc = guard(S, I, lambda: I.call(fn, [], {"audit": audit, "contests": cons, "cvr_list": cards, "prefix": "ph-"}))
+    r, exc = guard(S, I, lambda: I.call(fn, [], {"audit": audit, "contests": {"key of " + k_: v_ for k_, v_ in cons.items()}, "cvr_list": cards, "prefix": "ph-"}))
     if exc:
         return
     out, nph = r
